@@ -40,6 +40,43 @@ Ltac fld_in H :=
        upd_challenge_ack_timer upd_nagle upd_congestion_controller upd_tsval_generator
        upd_last_remote_tsval tcp_set_state fst snd] in H.
 
+(* For functions with long `let s := upd_... s in` chains: destruct the record first (kernel-friendly:
+   no nested projections survive), then compute projections and updaters. *)
+Ltac fldv :=
+  cbv beta iota zeta delta [s_state s_timer s_rtte s_assembler s_rx_buffer s_rx_fin_received s_tx_buffer s_timeout
+       s_keep_alive s_hop_limit s_listen_endpoint s_tuple s_local_seq_no s_remote_seq_no
+       s_remote_last_seq s_remote_last_ack s_remote_last_win s_remote_win_shift s_remote_win_len
+       s_remote_win_scale s_remote_has_sack s_remote_mss s_remote_last_ts s_local_rx_last_seq
+       s_local_rx_last_ack s_local_rx_dup_acks s_pending_fast_retransmit s_syn_unacked_in_fin_wait
+       s_ack_delay s_ack_delay_timer s_challenge_ack_timer s_nagle s_congestion_controller
+       s_tsval_generator s_last_remote_tsval upd_state upd_timer upd_rtte upd_assembler
+       upd_rx_buffer upd_rx_fin_received upd_tx_buffer upd_timeout upd_keep_alive upd_hop_limit
+       upd_listen_endpoint upd_tuple upd_local_seq_no upd_remote_seq_no upd_remote_last_seq
+       upd_remote_last_ack upd_remote_last_win upd_remote_win_shift upd_remote_win_len
+       upd_remote_win_scale upd_remote_has_sack upd_remote_mss upd_remote_last_ts
+       upd_local_rx_last_seq upd_local_rx_last_ack upd_local_rx_dup_acks
+       upd_pending_fast_retransmit upd_syn_unacked_in_fin_wait upd_ack_delay upd_ack_delay_timer
+       upd_challenge_ack_timer upd_nagle upd_congestion_controller upd_tsval_generator
+       upd_last_remote_tsval tcp_set_state fst snd].
+Ltac fldv_in H :=
+  cbv beta iota zeta delta [s_state s_timer s_rtte s_assembler s_rx_buffer s_rx_fin_received s_tx_buffer s_timeout
+       s_keep_alive s_hop_limit s_listen_endpoint s_tuple s_local_seq_no s_remote_seq_no
+       s_remote_last_seq s_remote_last_ack s_remote_last_win s_remote_win_shift s_remote_win_len
+       s_remote_win_scale s_remote_has_sack s_remote_mss s_remote_last_ts s_local_rx_last_seq
+       s_local_rx_last_ack s_local_rx_dup_acks s_pending_fast_retransmit s_syn_unacked_in_fin_wait
+       s_ack_delay s_ack_delay_timer s_challenge_ack_timer s_nagle s_congestion_controller
+       s_tsval_generator s_last_remote_tsval upd_state upd_timer upd_rtte upd_assembler
+       upd_rx_buffer upd_rx_fin_received upd_tx_buffer upd_timeout upd_keep_alive upd_hop_limit
+       upd_listen_endpoint upd_tuple upd_local_seq_no upd_remote_seq_no upd_remote_last_seq
+       upd_remote_last_ack upd_remote_last_win upd_remote_win_shift upd_remote_win_len
+       upd_remote_win_scale upd_remote_has_sack upd_remote_mss upd_remote_last_ts
+       upd_local_rx_last_seq upd_local_rx_last_ack upd_local_rx_dup_acks
+       upd_pending_fast_retransmit upd_syn_unacked_in_fin_wait upd_ack_delay upd_ack_delay_timer
+       upd_challenge_ack_timer upd_nagle upd_congestion_controller upd_tsval_generator
+       upd_last_remote_tsval tcp_set_state fst snd] in H.
+Ltac destruct_sock s :=
+  destruct s as [f0 f1 f2 f3 f4 f5 f6 f7 f8 f9 f10 f11 f12 f13 f14 f15 f16 f17 f18 f19 f20 f21 f22 f23 f24 f25 f26 f27 f28 f29 f30 f31 f32 f33 f34].
+
 (* the fields the sender invariant reads *)
 Definition txv (s : socket) :=
   (s_state s, s_tx_buffer s, s_local_seq_no s, s_remote_last_seq s, s_remote_win_len s,
